@@ -214,6 +214,13 @@ func (a *IdRefArg) Parse() error {
 	return nil
 }
 
+// isExtensionKeyword reports whether kw has the form prefix:identifier, the
+// only shape a keyword outside the YANG statement set may have.
+func isExtensionKeyword(kw string) bool {
+	ref := &IdRefArg{arg: arg(kw)}
+	return strings.Contains(kw, ":") && ref.Parse() == nil
+}
+
 type UriArg struct {
 	arg
 	url *url.URL
